@@ -252,6 +252,11 @@ def run_case(case):
                 s = c["step"]
                 if not (np.array_equal(v[s], va) and np.array_equal(x[s], xa)):
                     prob.append(("com_row", k, float(np.abs(v[s] - va).max()), f"/velocities[{s}] is not the state left by the COM removal of step {s}"))
+    out["obs"] = dict(
+        T_step0=[float(r[f"h5.{k}"]["data/thermo/T"][0]) for k in range(len(mols))],
+        absP_step0=[float(np.abs(momenta(_mass_of(m["species"]), r[f"h5.{k}"]["coordinates/values"][0], r[f"h5.{k}"]["velocities/values"][0])[0]).max()) for k, m in enumerate(mols)],
+        zero_com_calls=out["zero_com_calls"], com_removals_in_loop=len(loop_calls), oracle_comparisons=out["compared"],
+    )  # fmt: skip
     out["sig"] = f"{len(prob)}|{out['zero_com_calls']}|{'+'.join(sorted({p_[0] for p_ in prob}))}"
     return out
 
@@ -418,7 +423,7 @@ def evaluate(chk, cases, verbose=False):
         k = _key(c)
         if chk:
             chk.excluded += r.get("excluded", 0)
-            chk.case(k, nontrivial=r["compared"] > 0, outcome=r["sig"] + "|" + ",".join(r["rel"]))
+            chk.case(k, nontrivial=r["compared"] > 0, outcome=r["sig"] + "|" + ",".join(r["rel"]), sample=dict(case=k, relations=r["rel"], **r["obs"]))
             if r.get("com_work", 0.0) > 1e-9:
                 chk.extra["com_removals_with_work"] = chk.extra.get("com_removals_with_work", 0) + 1
         for p_ in r["problems"]:
